@@ -2,7 +2,7 @@
 import itertools, math, random, threading
 from .. import tlc, gen, common, sched
 
-OPS1 = '{"SetConst","SetInit","SetFlow","SetConv","SetW","Eval","ResetCache","RunTwice"}'
+OPS1 = '{"SetConst","SetInit","SetFlow","SetConv","SetW","Eval","EvalElem","Plot","ResetCache","RunTwice"}'
 
 
 def consts(dev='{}', threads='("t1" :> "x" @@ "t2" :> "z")'):
@@ -30,6 +30,35 @@ def apply_defs(m, defs, all_=False, only=None):
     if all_ or only == "y": y.equation = s * 2.0 + w if defs["yv"] == 1 else s + 10.0 + w
 
 
+def element_of(m, e):
+    return {"c": m.constants, "w": m.constants, "f": m.flows, "s": m.stocks, "y": m.converters}[e][e]
+
+
+def noisy_runs(b, m, defs):
+    """a scenario whose constant c is a stochastic definition, run with different equation lists without a cache reset:
+    the value reported for (c, t) is the value f and s consumed, and repeating the run returns identical results"""
+    counter = itertools.count(1)
+    b.register_scenarios({"noisy": {"constants": {"c": (lambda t: 100.0 + next(counter))}}}, "smm")
+    runs = []
+    for eqs in (["f"], ["f", "c", "s"], ["c"], ["s", "c"]):
+        df = b.run_scenarios(scenario_managers=["smm"], scenarios=["noisy"], equations=eqs, return_format="df")
+        runs.append({e: [float(v) for v in df[e if e in df.columns else "smm_noisy_" + e]] for e in eqs})
+    k = 1.0 if defs["fv"] == 1 else 2.0
+    r2 = runs[1]
+    if runs[0]["f"] != r2["f"]:
+        return ("f changed between two runs of the same scenario", runs[0]["f"], r2["f"])
+    if any(abs(fv - k * cv) > 1e-9 for fv, cv in zip(r2["f"], r2["c"])):
+        return ("the value reported for the stochastic constant c is not the value f consumed", [fv / k for fv in r2["f"]], r2["c"])
+    acc = float(defs["iv"])
+    for i in range(1, len(r2["s"])):
+        acc += r2["f"][i - 1]
+        if abs(r2["s"][i] - acc) > 1e-9:
+            return ("the stock did not consume the reported values of f", acc, r2["s"][i])
+    if runs[2]["c"] != r2["c"] or runs[3]["c"] != r2["c"] or runs[3]["s"] != r2["s"]:
+        return ("repeating the run changed the stochastic constant", r2["c"], [runs[2]["c"], runs[3]["c"]])
+    return None
+
+
 def reference(defs, e, t):
     """closed form of the reference model"""
     c = float(defs["c"]); fl = c if defs["fv"] == 1 else 2.0 * c
@@ -50,8 +79,18 @@ def replay1(hist):
             elif op == "SetConv": apply_defs(m, h["defs"], only="y")
             elif op == "SetW": apply_defs(m, h["defs"], only="w")
             elif op == "ResetCache": m.reset_cache()
+            elif op == "Plot":
+                el = element_of(m, h["e"])
+                df = el.plot(return_df=True)
+                col = list(df[h["e"]]) if h["e"] in df.columns else list(df[df.columns[0]])
+                fm = build(h["defs"], "fresh")
+                want = [fm.evaluate_equation(h["e"], float(t)) for t in range(4)]
+                if len(col) != 4 or any(not math.isclose(float(a), b, abs_tol=1e-9) for a, b in zip(col, want)):
+                    return {"step": n, "clause": "%s.plot(return_df=True) differs from a freshly built model with the final definitions" % h["e"],
+                            "expected": want, "observed": [float(a) for a in col], "definitions": h["defs"],
+                            "history": [{a: b for a, b in x.items() if a != "defs"} for x in hist[:n + 1]]}
             elif op == "Eval":
-                got = m.evaluate_equation(h["e"], float(h["t"]))
+                got = m.evaluate_equation(h["e"], float(h["t"])) if h.get("route", "api") == "api" else element_of(m, h["e"])(float(h["t"]))
                 fresh = build(h["defs"], "fresh").evaluate_equation(h["e"], float(h["t"]))
                 ref = reference(h["defs"], h["e"], h["t"])
                 if not math.isclose(fresh, ref, abs_tol=1e-9):
@@ -76,6 +115,9 @@ def replay1(hist):
                             if e in r and any(not math.isclose(a, w, abs_tol=1e-9) for a, w in zip(r[e], want)):
                                 return {"step": n, "clause": "repeated run / different equation list reports different %s" % e,
                                         "expected": want, "observed": r[e], "definitions": h["defs"]}
+                    bad = noisy_runs(b, m, h["defs"])
+                    if bad:
+                        return {"step": n, "clause": "stochastic scenario constant: " + bad[0], "expected": bad[1], "observed": bad[2], "definitions": h["defs"]}
                 finally:
                     b.destroy()
         except common.Machinery:
@@ -155,6 +197,12 @@ def run(tier, replay_file=None):
                           extra_cfg={"init": "Init1", "next": "Next1"})
     b1 = dict(consts()); b1["Ops"] = '{"SetConst","SetInit","SetFlow","SetConv","SetW","Eval"}'; b1["Times"] = '{2}'; b1["CVals"] = '{1,3}'; b1["IVals"] = '{0,5}'
     bfs, _ = gen.histories("Memo", b1, 3 if quick else 4, extra_cfg={"init": "Init1", "next": "Next1"})
+    # the memo filled through one route only (plot / element call / api), then an edit of an input, then a read: every combination
+    b2 = dict(b1); b2["Ops"] = '{"SetConst","SetInit","SetFlow","Eval","EvalElem","Plot"}'
+    routes, _ = gen.histories("Memo", b2, 3, extra_cfg={"init": "Init1", "next": "Next1", "action_constraints": ["MC_Fill"]},
+                              defs='MC_Fill == LET n == Len(hist) IN /\\ (n \\in {0, 2} => hist\'[n + 1].op \\in {"Eval", "Plot"}) /\\ (n = 1 => hist\'[2].op \\notin {"Eval", "Plot"})\n')
+    bfs = bfs + routes
+    R.cov["fill_edit_read_histories"] = len(routes)
     R.cov["bfs_histories"], R.cov["sim_histories"] = len(bfs), len(hs)
     evals = 0
     for hist in bfs + hs:
